@@ -107,7 +107,7 @@ def is_call_to(e, *names):
 
 
 def is_field_named(e, name):
-    return e[0] == "field" and len(e) > 3 and e[3] and e[3][0] == name
+    return e[0] == "field" and mir.field_name(e) == name
 
 
 def blocks_between(body, start, stop_blocks, within=None):
